@@ -597,7 +597,49 @@ def _standin(repo, seed, tier):
 
 _standin.tiers = ('quick', 'thorough')
 BOUNDED = [_standin]
-STRUCTURAL = [structural_guards, structural_defaults]
+# unguarded cores: the recursive workers behind a give-up guard may only be entered through that guard (or by
+# themselves); a second entrance is a path on which the guard does not cut the cycle
+# (file, name of the core as called, allowed enclosing functions)
+GUARDED_CORES = [
+    ('jedi/inference/value/iterable.py', '_nested', {'_iterate', '_nested'},
+     'comprehension iteration (ComprehensionMixin._nested) is only entered through the memoised _iterate, whose stored '
+     'default [] ends a comprehension that iterates over itself'),
+    ('jedi/inference/syntax_tree.py', '_infer_node', {'infer_node', '_infer_node_if_inferred', '_infer_node_cached'},
+     'node inference (_infer_node, capped per node) is only entered through infer_node and its memoised wrappers'),
+]
+
+
+def structural_cores(repo):
+    from pyvc import inventory as inv
+    out = []
+    for rel0, core, allowed, label in GUARDED_CORES:
+        callers = []
+        for rel, path in inv.py_files(repo):
+            try:
+                t = inv.parse(path)
+            except SyntaxError:
+                continue
+            # innermost enclosing function of every call of the core
+
+            def visit(node, cur):
+                if isinstance(node, (ast.FunctionDef, ast.AsyncFunctionDef)):
+                    cur = node.name
+                if isinstance(node, ast.Call):
+                    f = node.func
+                    nm = f.attr if isinstance(f, ast.Attribute) else f.id if isinstance(f, ast.Name) else None
+                    if nm == core:
+                        callers.append((rel.replace(os.sep, '/'), cur, node.lineno))
+                for ch in ast.iter_child_nodes(node):
+                    visit(ch, cur)
+            visit(t, '<module>')
+        extra = [c for c in callers if c[1] not in allowed]
+        out.append({'id': 'guarded-core:%s' % core, 'kind': 'inventory', 'definite': bool(extra),
+                    'ok': (not extra) if callers else None, 'label': 'give-up guard cannot be bypassed: ' + label,
+                    'detail': 'calls outside the guard: %r' % (extra,)})
+    return out
+
+
+STRUCTURAL = [structural_guards, structural_defaults, structural_cores]
 NOT_DECIDED = ['that the guards cut every cycle of the (dynamically dispatched) call graph',
                'RecursionError from Python frame depth alone', 'polynomial cost',
                '_memoize_default / generator cache / _limit_value_infers wrappers: contracts pending']
